@@ -60,8 +60,8 @@ func stripCtrl(s string) string {
 	}, s)
 }
 func fieldsJoin(s string) string { return strings.Join(strings.Fields(s), " ") }
-func accept(q string) bool      { return len(q) <= 1000 && !hasMeta(q) && !blankWS(stripCtrl(q)) }
-func out(q string) string       { return fieldsJoin(stripCtrl(q)) }
+func accept(q string) bool       { return len(q) <= 1000 && !hasMeta(q) && !blankWS(stripCtrl(q)) }
+func out(q string) string        { return fieldsJoin(stripCtrl(q)) }
 
 var c14Alphabet = []string{"a", "B", "7", " ", "\t", "\n", "\x01", "\x7f", "<", "$", "-", "é", "\u0085", "\u00a0", "\xff", "\u2028"}
 
